@@ -76,15 +76,15 @@ def main(run: core.Run) -> None:
 
     drift = R.fingerprint_drift()
     run.coverage["fingerprint_drift"] = drift
-    n_models = run.size(2000, 12000)
+    n_models = run.size(1600, 12000)
     if drift and run.tier == "quick":
         n_models *= 3
-    models = R.gen_stream(run, n_models, stats)
+    models = R.gen_stream(run, n_models, stats) + R.directed_tie_models()
     tie_problems = R.fold_tie(run, drv, models, stats, hist)
 
     failures = []
     open_ids = {f["id"] for f in run.open_findings()}
-    n_val = run.size(900, 5000)
+    n_val = run.size(750, 5000)
     for k, (m, meta) in enumerate(models[:n_val]):
         combos = [("optimize", R.OPTION_TUPLES[k % len(R.OPTION_TUPLES)]), ("fold_constants", R.OPTION_TUPLES[(k + 2) % len(R.OPTION_TUPLES)])]
         if k % 3 == 0:
@@ -102,7 +102,7 @@ def main(run: core.Run) -> None:
                 fid = R.known_in_stream(meta, open_ids)
                 if not fid and "C09-N3" in open_ids and R.classify_c09n3(m, d):
                     fid = "C09-N3"
-                if not fid and "C04-D7" in open_ids and api in ("optimize", "rewrite") and R.classify_c04d7(m, api, opts, d, run.rng, meta["init_inputs"]):
+                if not fid and "C04-D7" in open_ids and api in ("optimize", "rewrite") and R.classify_c04d7(m, api, opts, d, run.rng, meta["init_inputs"], meta.get("overrides")):
                     fid = "C04-D7"
                 if not fid and "C04-D4" in open_ids and R.classify_c04d4(m, api, opts, d, run.rng, meta["init_inputs"]):
                     fid = "C04-D4"
@@ -112,7 +112,17 @@ def main(run: core.Run) -> None:
                 failures.append((m, meta, api, opts, d))
 
     # ---- rules introducing a new domain, matching only inside subgraphs / functions / main graph
-    rule_failures = R.custom_rule_stream(run, stats)
+    rule_failures = []
+    for desc, d in R.custom_rule_stream(run, stats):
+        if "C04-D11" in open_ids and R.pred_c04d11(desc):
+            stats["known_C04-D11_in_stream"] += 1
+            if not stats["reported_C04-D11"]:
+                stats["reported_C04-D11"] += 1
+                run.known("C04-D11", f"rewrite(user rule Identity(x) -> x, match in the {desc['where']} branch): {d}".replace("\n", " "))
+            continue
+        rule_failures.append((desc, d))
+    # ---- directed families of the round-3 findings (old opsets, If in function bodies, Identity onto declared inputs)
+    rule_failures += R.round3_stream(run, stats, open_ids)
     # ---- functions (checker/walker on bodies, `modified`), evaluator state across opsets, shape inference with overrides
     extra = (S.function_stream(run, drv, stats, hist, run.size(16, 64)) + S.opset_history_stream(run, stats)
              + S.shape_override_stream(run, stats, run.size(10, 40)))
